@@ -966,7 +966,6 @@ func (c *Ctx) policyGuard(rule, cons string, fn *ssa.Function, target ssa.Instru
 	r.Ok(rule, cons, p.InstrPos(pcall), "unreachable from %s()==false; the policy call is bypassed only when extAction != Defer", shortFn(policyFn))
 }
 
-
 // c05OriginContainsFunc: the origin predicate written with the library's search:
 // rejected := slices.ContainsFunc(RejectOriginDomains, func(pattern string) bool { return
 // MatchWithWildcards(pattern, lowered) }); return !rejected.
